@@ -436,7 +436,8 @@ class C09(AsmPlan):
             v = [b';redcode-94'] + ls[:mid] + [b';redcode', b';REDCODE quiet'] + ls[mid:]
             t = list(b'\n'.join(v))
             out += [' '.join(str(x) for x in [11] + cfg + t), ' '.join(str(x) for x in [10] + cfg + t)]
-            if sum(ints) % 64 == 0:
+            self.long_lines = getattr(self, 'long_lines', 0) + (1 if sum(ints) % 64 == 0 else 0)
+            if sum(ints) % 64 == 0 and self.long_lines <= 40:      # at most forty per run: the extracted model needs seconds for each
                 t = list(b';' + b'-' * 70000 + b'\n' + bytes(r[1:]))
                 out += [' '.join(str(x) for x in [11] + cfg + t), ' '.join(str(x) for x in [10] + cfg + t)]
         return out
